@@ -1041,6 +1041,52 @@ func (l *Life) VecChainScenario(tag string) {
 	}
 }
 
+// SweepScenario: (a) the same small batch with a stored value of k incompressible bytes, k = 0..130, so that every
+// section address, doc-value offset and length after the stored data runs through all residues modulo 128 (the
+// varint boundaries); (b) the empty batch under fixed and cardinality-dependent chunk modes.  Each is built,
+// persisted, re-opened and observed.
+func (l *Life) SweepScenario(tag string) {
+	l.Reset(1024, tag)
+	for k := 0; k <= 130; k++ {
+		mk := func(id string, pad int, toks ...string) Doc {
+			d := Doc{ID: B(id), Fields: []FieldInst{IDField(B(id))}}
+			f := FieldInst{Name: B("name"), Typ: int('t'), DV: true, Stored: true, Value: randBytes(l.r, pad), AP: Ints{}}
+			for i, t := range toks {
+				f.Toks = append(f.Toks, Tok{T: B(t), Fr: 1, Locs: []Loc{{P: i + 1, S: 4 * i, E: 4*i + 3, AP: Ints{}}}})
+			}
+			f.Len = len(toks)
+			g := FieldInst{Name: B("tag"), Typ: int('t'), DV: true, Len: 1, Toks: []Tok{{T: B("x"), Fr: 1, Locs: []Loc{}}}}
+			d.Fields = append(d.Fields, f, g)
+			d.Canon()
+			return d
+		}
+		h := l.Build([]Doc{mk("s0", k, "a", "b"), mk("s1", 0, "b")}, 1026)
+		if h == nil {
+			continue
+		}
+		kf := l.Persist(h)
+		if l.files[kf] != nil {
+			if o := l.Open(kf); o != nil {
+				l.Close(o)
+			}
+		}
+		l.Close(h)
+	}
+	for _, mode := range []int{1, 2, 1024, 1025, 1026} {
+		h := l.Build([]Doc{}, mode)
+		if h == nil {
+			continue
+		}
+		kf := l.Persist(h)
+		if l.files[kf] != nil {
+			if o := l.Open(kf); o != nil {
+				l.Close(o)
+			}
+		}
+		l.Close(h)
+	}
+}
+
 // WideScenario: a segment with more than 128 fields goes through every writer and reader once: built,
 // persisted, re-opened, merged with deletions (alone and with a second wide segment), merged again.
 func (l *Life) WideScenario(p *GenProfile, tag string) {
